@@ -4,6 +4,7 @@ package main
 
 import (
 	"fmt"
+	"go/token"
 	"go/types"
 	"sort"
 	"strconv"
@@ -788,6 +789,44 @@ func (fc *FnCtx) applyContract(ci *calleeInfo, args []Val, writes map[string]boo
 		}
 		fc.assume(t)
 	}
+	// determinism of heap-pure functions (see readsOfFn)
+	if ci.fn != nil && len(ct.Modifies) == 0 {
+		var ats []Term
+		okArgs := true
+		for i, a := range args {
+			if i >= len(ci.ptypes) {
+				okArgs = false
+				break
+			}
+			t, isT := a.(string)
+			if !isT {
+				okArgs = false
+				break
+			}
+			ats = append(ats, t)
+		}
+		if okArgs {
+			for i := 0; i < results.Len(); i++ {
+				pt, _ := fc.w.pureResultTerm(ci.fn, pre, ats, i)
+				if pt == "" {
+					continue
+				}
+				var rv Val
+				if results.Len() == 1 {
+					rv = res
+				} else if tv, ok := res.(TupleVal); ok {
+					rv = tv[i]
+				}
+				if rt, ok := rv.(string); ok {
+					if srt, _ := sortOf(results.At(i).Type()); srt == SStr {
+						fc.assume(app("=", rt, pt))
+					} else {
+						fc.assume(eq(rt, pt))
+					}
+				}
+			}
+		}
+	}
 	return res
 }
 
@@ -910,4 +949,164 @@ func (fc *FnCtx) doCopy(x *ssa.Call) Val {
 	fc.assumeRaw("(forall ((k!c Int)) (! (= (select " + nc + " k!c) (ite (and (<= " + doff + " k!c) (< k!c (+ " + doff + " " + n + "))) " + srcAt(app("-", "k!c", doff)) + " (select " + oldc + " k!c))) :pattern ((select " + nc + " k!c))))")
 	fc.setHeap(key, store(E, sarrOf(d), nc))
 	return n
+}
+
+
+// ---------------------------------------------------------------------------------------------------------------
+// Static read sets and determinism of heap-pure functions.
+//
+// A function of the verified packages that declares no modifies clause (it writes only objects it allocates) and returns
+// scalars/strings is a deterministic function of its arguments and of the heap components it may read. Its result is
+// therefore equal to an uninterpreted function applied to (current versions of the read components, arguments). Callers get
+// that equation for free; contracts can name the value with resultOf("<key>", args...). The read set is computed from the
+// SSA (loads, transitively through callees), so the equation is justified by the code, not assumed.
+// ---------------------------------------------------------------------------------------------------------------
+
+func (w *World) readsOfFn(fn *ssa.Function) map[string]bool {
+	key := shortFuncKey(fn)
+	if m, ok := w.readsMemo[key]; ok {
+		return m
+	}
+	if w.readsBusy[key] {
+		return map[string]bool{}
+	}
+	w.readsBusy[key] = true
+	out := map[string]bool{}
+	for _, b := range fn.Blocks {
+		for _, in := range b.Instrs {
+			switch x := in.(type) {
+			case *ssa.UnOp:
+				if x.Op == token.MUL {
+					w.keysOfStoreAddr(x.X, out) // same key computation as for stores
+				}
+			case *ssa.Lookup:
+			case *ssa.Convert:
+				if sl, ok := x.X.Type().Underlying().(*types.Slice); ok {
+					k, _ := w.elemKeySafe(sl.Elem())
+					out[k] = true
+				}
+			case *ssa.Call:
+				if b, ok := x.Call.Value.(*ssa.Builtin); ok {
+					switch b.Name() {
+					case "append", "copy":
+						for _, a := range x.Call.Args {
+							if sl, ok := a.Type().Underlying().(*types.Slice); ok {
+								k, _ := w.elemKeySafe(sl.Elem())
+								out[k] = true
+							}
+						}
+					}
+					continue
+				}
+				if x.Call.IsInvoke() || x.Call.StaticCallee() == nil {
+					out["$dynamic"] = true
+					continue
+				}
+				callee := x.Call.StaticCallee()
+				ck := shortFuncKey(callee)
+				if callee.Blocks != nil && w.fnByKey[ck] == callee {
+					for k := range w.readsOfFn(callee) {
+						out[k] = true
+					}
+					continue
+				}
+				// external: ghost-state readers
+				if callee.Pkg != nil {
+					switch callee.Pkg.Pkg.Path() {
+					case "github.com/bits-and-blooms/bitset":
+						out[keyBitSet] = true
+					case "strings":
+						if callee.Signature.Recv() != nil {
+							out[keyBuilder] = true
+						}
+					case "golang.org/x/net/idna", "golang.org/x/text/encoding/charmap", "regexp", "unicode", "unicode/utf8", "strconv", "math", "net/url", "errors", "fmt", "sort":
+					default:
+						out["$dynamic"] = true
+					}
+				}
+			}
+		}
+	}
+	w.readsBusy[key] = false
+	w.readsMemo[key] = out
+	return out
+}
+
+// pureResultTerm returns the term naming the result(s) of a heap-pure deterministic function in state st, or "" if the
+// function does not qualify.
+func (w *World) pureResultTerm(fn *ssa.Function, st *State, args []Term, resIdx int) (Term, string) {
+	key := shortFuncKey(fn)
+	if fn.Blocks == nil || w.fnByKey[key] != fn {
+		return "", ""
+	}
+	if c := w.cs.Funcs[key]; c != nil && (len(c.Modifies) > 0 || c.Trusted || c.Opaque) {
+		return "", ""
+	}
+	if len(w.writesOfFnPreexisting(fn)) > 0 {
+		return "", ""
+	}
+	res := fn.Signature.Results()
+	if resIdx >= res.Len() {
+		return "", ""
+	}
+	rs, ok := sortOf(res.At(resIdx).Type())
+	if !ok || !(rs == SInt || rs == SBool || rs == SStr) {
+		return "", ""
+	}
+	switch res.At(resIdx).Type().Underlying().(type) {
+	case *types.Pointer, *types.Interface, *types.Map, *types.Signature, *types.Slice:
+		return "", ""
+	}
+	reads := w.readsOfFn(fn)
+	if reads["$dynamic"] {
+		return "", ""
+	}
+	var ts []Term
+	var sorts []string
+	for _, k := range sortedKeys(reads) {
+		ts = append(ts, st.Heap(k))
+		sorts = append(sorts, w.heapSorts[k])
+	}
+	ptypes := sigParamTypes(fn.Signature)
+	if len(args) != len(ptypes) {
+		return "", ""
+	}
+	for i, a := range args {
+		s, ok := sortOf(ptypes[i])
+		if !ok {
+			return "", ""
+		}
+		ts = append(ts, a)
+		sorts = append(sorts, s)
+	}
+	name := fmt.Sprintf("pure_%s_%d", sanitizeSym(key), resIdx)
+	w.declarePure(name, sorts, rs)
+	return app(name, ts...), rs
+}
+
+func sanitizeSym(s string) string {
+	return strings.NewReplacer("(", "", ")", "", "*", "p", "$", "S", "#", "H", " ", "_", "/", "_").Replace(s)
+}
+
+func (w *World) declarePure(name string, sorts []string, rs string) {
+	if w.pureDecls == nil {
+		w.pureDecls = map[string]string{}
+	}
+	if _, ok := w.pureDecls[name]; !ok {
+		w.pureDecls[name] = fmt.Sprintf("(declare-fun %s (%s) %s)", name, strings.Join(sorts, " "), rs)
+		w.pureOrder = append(w.pureOrder, name)
+	}
+}
+
+// writesOfFnPreexisting: does the function (per its contract) write anything that exists before the call? A function
+// without a modifies clause is checked by its own frame obligations to write fresh objects only.
+func (w *World) writesOfFnPreexisting(fn *ssa.Function) map[string]bool {
+	out := map[string]bool{}
+	key := shortFuncKey(fn)
+	if c := w.cs.Funcs[key]; c != nil && len(c.Modifies) > 0 {
+		out["declared"] = true
+	}
+	// transitively: callees with modifies clauses applied to pre-existing objects would have to appear in this function's
+	// own modifies clause (frame obligations), so the declaration above is enough.
+	return out
 }
